@@ -69,6 +69,51 @@ pub fn gen(r: &mut Rng, _tier: &str, _i: usize, stats: &mut BTreeMap<String, u64
                 s.insert(0, '(');
             }
         }
+        // a closing parenthesis without partner, and further right an opening one (the totals may even
+        // agree): the call rewrite of a later comma must not repair this
+        if r.chance(1, 2) {
+            let bins: Vec<&OpCfg> = t.iter().filter(|c| c.bin.is_some()).collect();
+            let name = &bins[r.below(bins.len())].name;
+            let op2 = &bins[r.below(bins.len())].name;
+            let inner = call_soup(r, &t, 2);
+            s = match r.below(3) {
+                0 => format!("1 {} {} 1) {} (({},2)", op2, name, bins[r.below(bins.len())].name, inner),
+                1 => format!("{}({} 1))) {} {}(1,({},({},4))", name, name, op2, name, inner, inner),
+                _ => {
+                    let cs: Vec<char> = s.chars().collect();
+                    let p1 = r.below(cs.len() + 1);
+                    let p2 = p1 + r.below(cs.len() + 1 - p1);
+                    let mut o: String = cs[..p1].iter().collect();
+                    o.push(')');
+                    o.extend(cs[p1..p2].iter());
+                    o.push('(');
+                    o.extend(cs[p2..].iter());
+                    // judged only if really unbalanced (a prefix with more `)` than `(`, or unequal totals)
+                    let mut d = 0i64;
+                    let mut neg = false;
+                    let mut inside = false;
+                    for c in o.chars() {
+                        if inside {
+                            inside = c != '}';
+                        } else if c == '{' {
+                            inside = true;
+                        } else if c == '(' {
+                            d += 1;
+                        } else if c == ')' {
+                            d -= 1;
+                            neg = neg || d < 0;
+                        }
+                    }
+                    if neg || d != 0 {
+                        o
+                    } else {
+                        format!("1 {} {} 1) {} ((3,2)", op2, name, op2)
+                    }
+                }
+            };
+            *stats.entry("unmatched_then_comma".to_string()).or_insert(0) += 1;
+            return format!("damage\t{}\tnum\t{}\t{}", table_to_field(&t), hex(&s), "unmatched_then_comma");
+        }
         let open = s.chars().filter(|c| *c == '(').count();
         let close = s.chars().filter(|c| *c == ')').count();
         if open == close {
